@@ -267,42 +267,64 @@ FUNCS = {"mean_obliquity": mean_obliquity, "true_obliquity": true_obliquity,
          "nutation_longitude": nutation_longitude, "nutation_obliquity": nutation_obliquity}
 
 
+KWARGS = [{}, {"utc": True}, {"leap_seconds": 10.0}, {"utc": True, "leap_seconds": 40.0}]
+
+
 def check_forms(case):
+    """Every date-argument form, with and without the UTC keywords, gives what the Epoch built with
+    the same keywords gives; and in every form true = mean + nutation in obliquity."""
     y, m, d, h = case["instant"]
     fd = d + h / 24.0
-    ref_e = Epoch(y, m, fd)
     out = []
-    for fname, fn in FUNCS.items():
+    for kw in KWARGS:
         try:
-            ref = fn(ref_e)._deg
+            ref_e = Epoch(y, m, fd, **kw)
         except Exception as ex:
-            out.append(("exception", "%s(Epoch) raised %r" % (fname, ex), None))
+            out.append(("exception", "Epoch(%r, **%r) raised %r" % (case["instant"], kw, ex), None))
             continue
-        forms = [("args", lambda: fn(y, m, fd)), ("tuple", lambda: fn((y, m, fd))),
-                 ("list", lambda: fn([y, m, fd])), ("epoch_copy", lambda: fn(Epoch(ref_e)))]
+        forms = [("args", lambda fn: fn(y, m, fd, **kw)), ("tuple", lambda fn: fn((y, m, fd), **kw)),
+                 ("list", lambda fn: fn([y, m, fd], **kw)), ("epoch_copy", lambda fn: fn(Epoch(ref_e)))]
         if 1 <= y <= 9999:
             try:
                 dt = datetime.datetime(y, m, d, h)
-                forms.append(("datetime", lambda: fn(dt)))
+                forms.append(("datetime", lambda fn: fn(dt, **kw)))
                 if h == 0:
-                    forms.append(("date", lambda: fn(dt.date())))
+                    forms.append(("date", lambda fn: fn(dt.date(), **kw)))
             except ValueError:
                 pass
-        for lab, call in forms:
+        got = {}
+        for fname, fn in FUNCS.items():
             try:
-                v = call()._deg
+                ref = fn(ref_e)._deg
             except Exception as ex:
-                out.append(("forms", "%s(%s form of %r) raised %r" % (fname, lab, case["instant"], ex), None))
+                out.append(("exception", "%s(Epoch) raised %r" % (fname, ex), None))
                 continue
-            if abs(v - ref) > 1e-12:
-                out.append(("forms", "%s: %s form of %r gives %r, Epoch form %r" % (fname, lab, case["instant"], v, ref),
-                            abs(v - ref)))
+            for lab, call in forms:
+                try:
+                    v = call(fn)._deg
+                except Exception as ex:
+                    out.append(("forms", "%s(%s form of %r, %r) raised %r" % (fname, lab, case["instant"], kw, ex),
+                                None))
+                    continue
+                got[(fname, lab)] = v
+                if abs(v - ref) > 1e-12:
+                    out.append(("forms", "%s: %s form of %r with %r gives %r, Epoch form %r"
+                                % (fname, lab, case["instant"], kw, v, ref), abs(v - ref)))
+        for lab, _ in forms:
+            try:
+                s_ = got[("mean_obliquity", lab)] + got[("nutation_obliquity", lab)]
+                t_ = got[("true_obliquity", lab)]
+            except KeyError:
+                continue
+            if abs(s_ - t_) > 1e-12:
+                out.append(("forms_sum", "true_obliquity %r != mean + nutation %r in %s form of %r with %r"
+                            % (t_, s_, lab, case["instant"], kw), abs(s_ - t_)))
     return out
 
 
 def run_forms(block, ctx):
     for case in block:
-        ctx.evals += 4 * 6
+        ctx.evals += 4 * 6 * len(KWARGS)
         ctx.nt_count += 1
         for site, msg, dev in check_forms(case):
             ctx.viol(case, msg, dev=dev, site=site)
